@@ -641,3 +641,299 @@ fn run() {
     }
     let _ = rep.finish();
 }
+
+// ----------------------------------------------------------------------------------
+// Concurrent part: the same oracle at quiescent points of multi-threaded histories.
+//
+// The daemon runs one task per session on a multi-threaded runtime, and the next-hop
+// reachability reports arrive on the event loop: `insert_route` / `remove_route` /
+// `unregister_peer` / `soft_reset_in` of different sessions and `update_nexthop_validity`
+// really do overlap.  Here one thread per session applies that session's operations,
+// one thread delivers the reachability reports (serialised among themselves, as in the
+// event loop), one applies import-policy changes + soft resets; the delay-injection hooks
+// of table_manager.rs (between critical sections only) widen the windows.  When all
+// threads have finished, the request stream is folded and the sequential oracle is applied,
+// plus the converse of the exclusion clause (a path whose next hop is reachable again is
+// eligible again).
+
+#[derive(Clone, Debug)]
+enum COp {
+    Session(usize, Op),
+    Kernel(Op),
+    Control(Op),
+}
+
+/// per destination: how many unfiltered paths have a next hop that is currently reachable
+fn reachable_unfiltered(w: &World) -> BTreeMap<String, usize> {
+    let mut out = BTreeMap::new();
+    for f in [Fam::V4, Fam::V6, Fam::Vpn4] {
+        for shard in &w.tables.shards {
+            let s = shard.lock().unwrap();
+            for r in s.rtable.iter_reach_post(family(f)) {
+                let ok = r.nexthop.is_none_or(|n| !w.unreachable.contains(&n.addr()));
+                let e = out.entry(format!("{}", r.net.nlri)).or_insert(0);
+                if ok {
+                    *e += 1;
+                }
+            }
+        }
+    }
+    out
+}
+
+fn check_converse(w: &World) -> Option<Check> {
+    let want = reachable_unfiltered(w);
+    let mut got: BTreeMap<String, usize> = BTreeMap::new();
+    for f in [Fam::V4, Fam::V6, Fam::Vpn4] {
+        for ch in w.tables.collect_loc_rib_paths(family(f)) {
+            got.insert(format!("{}", ch.net), ch.current_paths.len());
+        }
+    }
+    for (net, n) in &want {
+        let g = got.get(net).copied().unwrap_or(0);
+        if g < *n {
+            return Some(Check {
+                clause: "exclusion/reachable-path-excluded",
+                detail: format!("{}: {} unfiltered paths have a reachable next hop but only {} are eligible", net, n, g),
+            });
+        }
+    }
+    None
+}
+
+struct ConcOutcome {
+    failure: Option<(String, String)>,
+    hits: u64,
+    sched: u64,
+    applied: u64,
+    reports: u64,
+    requests: u64,
+    overlap: bool,
+}
+
+fn run_conc_history(shards: usize, with_vrfs: bool, pre: &[Op], plan: &[Vec<COp>], seed: u64, intensity: u32) -> ConcOutcome {
+    use std::sync::Mutex;
+    use std::sync::atomic::{AtomicU64, Ordering};
+    let mut w = World::new(shards, with_vrfs);
+    for op in pre {
+        w.apply(op);
+    }
+    let tables = w.tables.clone();
+    let attrs = w.attrs.clone();
+    let imp = w.imp.clone();
+    let sources: Vec<_> = w.sources.iter().map(|m| Arc::new(Mutex::new(m.clone()))).collect();
+    let unreachable = Arc::new(Mutex::new(w.unreachable.clone()));
+    let ts = Arc::new(AtomicU64::new(w.ts as u64 + 1));
+    let applied = Arc::new(AtomicU64::new(0));
+    let reports = Arc::new(AtomicU64::new(0));
+    let running = Arc::new(AtomicU64::new(0));
+    let overlap = Arc::new(AtomicU64::new(0));
+    crate::verif_hooks::install(seed, intensity);
+    let mut handles = Vec::new();
+    for (ti, ops) in plan.iter().enumerate() {
+        let ops = ops.clone();
+        let tables = tables.clone();
+        let attrs = attrs.clone();
+        let imp = imp.clone();
+        let sources = sources.clone();
+        let unreachable = unreachable.clone();
+        let ts = ts.clone();
+        let applied = applied.clone();
+        let reports = reports.clone();
+        let running = running.clone();
+        let overlap = overlap.clone();
+        handles.push(std::thread::spawn(move || {
+            crate::verif_hooks::set_thread_id(1 + ti as u32);
+            if running.fetch_add(1, Ordering::SeqCst) > 0 {
+                overlap.fetch_add(1, Ordering::SeqCst);
+            }
+            for cop in ops {
+                let t = ts.fetch_add(1, Ordering::SeqCst) as u32;
+                match cop {
+                    COp::Session(p, Op::Announce { fam, pfx, pid, attr, nh, .. }) => {
+                        let src = sources[p].lock().unwrap()[&fam].clone();
+                        tables.insert_route(
+                            src,
+                            family(fam),
+                            packet::PathNlri { path_id: pid, nlri: prefix(fam, pfx) },
+                            Some(nexthop(fam, nh)),
+                            attrs[attr].clone(),
+                            None,
+                            t,
+                        );
+                    }
+                    COp::Session(p, Op::Withdraw { fam, pfx, pid, .. }) => {
+                        let src = sources[p].lock().unwrap()[&fam].clone();
+                        tables.remove_route(src, family(fam), packet::PathNlri { path_id: pid, nlri: prefix(fam, pfx) }, None, t);
+                    }
+                    COp::Session(p, Op::PeerDown { .. }) => {
+                        tables.unregister_peer(peer_addr(p), &[Family::IPV4, Family::IPV6, Family::IPV4_VPN], &[]);
+                        *sources[p].lock().unwrap() = new_sources(p);
+                    }
+                    COp::Kernel(Op::NhReport { fam, nh, reachable }) => {
+                        let a = nexthop(fam, nh).addr();
+                        {
+                            let mut u = unreachable.lock().unwrap();
+                            if reachable {
+                                u.remove(&a);
+                            } else {
+                                u.insert(a);
+                            }
+                        }
+                        tables.update_nexthop_validity(a, reachable);
+                        reports.fetch_add(1, Ordering::SeqCst);
+                    }
+                    COp::Control(Op::ImportPolicy { idx, peer }) => {
+                        tables.import_policy.store(imp[idx % imp.len()].clone());
+                        tables.soft_reset_in(peer_addr(peer));
+                    }
+                    _ => continue,
+                }
+                applied.fetch_add(1, Ordering::SeqCst);
+            }
+            running.fetch_sub(1, Ordering::SeqCst);
+        }));
+    }
+    for h in handles {
+        let _ = h.join();
+    }
+    let (hits, log) = crate::verif_hooks::uninstall();
+    // distinct (thread, point) alternations seen: a cheap measure of interleaving
+    let sched = log.windows(2).filter(|p| p[0].0 != p[1].0).count() as u64;
+    w.unreachable = unreachable.lock().unwrap().clone();
+    let mut neg = None;
+    w.drain(&mut neg);
+    let mut failure = None;
+    if let Some(a) = neg {
+        failure = Some(("nht/negative".to_string(), format!("registrations for {} went negative", a)));
+    } else if let Some(c) = check(&w, with_vrfs) {
+        failure = Some((c.clause.to_string(), c.detail));
+    } else if let Some(c) = check_converse(&w) {
+        failure = Some((c.clause.to_string(), c.detail));
+    }
+    ConcOutcome {
+        failure,
+        hits,
+        sched,
+        applied: applied.load(Ordering::SeqCst),
+        reports: reports.load(Ordering::SeqCst),
+        requests: w.requests,
+        overlap: overlap.load(Ordering::SeqCst) > 0,
+    }
+}
+
+fn gen_conc_plan(rng: &mut Rng) -> Vec<Vec<COp>> {
+    let fams = [Fam::V4, Fam::V4, Fam::V6, Fam::Vpn4];
+    let mut plan: Vec<Vec<COp>> = Vec::new();
+    // few prefixes, few next hops: the races need the same destination / address
+    let npfx = rng.range(1, 3) as usize;
+    for p in 0..N_PEERS {
+        let n = rng.range(2, 12) as usize;
+        plan.push(
+            (0..n)
+                .map(|_| {
+                    let fam = *rng.pick(&fams);
+                    let k = rng.below(100);
+                    if k < 70 {
+                        COp::Session(
+                            p,
+                            Op::Announce { peer: p, fam, pfx: rng.usize(npfx), pid: rng.below(2) as u32, attr: rng.usize(5), nh: rng.usize(2) },
+                        )
+                    } else if k < 92 {
+                        COp::Session(p, Op::Withdraw { peer: p, fam, pfx: rng.usize(npfx), pid: rng.below(2) as u32 })
+                    } else {
+                        COp::Session(p, Op::PeerDown { peer: p })
+                    }
+                })
+                .collect(),
+        );
+    }
+    let n = rng.range(1, 8) as usize;
+    plan.push((0..n).map(|_| COp::Kernel(Op::NhReport { fam: *rng.pick(&fams), nh: rng.usize(2), reachable: rng.chance(1, 2) })).collect());
+    if rng.chance(1, 2) {
+        let n = rng.range(1, 4) as usize;
+        plan.push((0..n).map(|_| COp::Control(Op::ImportPolicy { idx: rng.usize(3), peer: rng.usize(N_PEERS) })).collect());
+    }
+    plan
+}
+
+#[test]
+fn run_conc() {
+    let params = Params::from_args_env();
+    let mut rep = Report::new("C20", &params);
+    let mut rng = Rng::new(params.seed ^ 0xC20C);
+    let n = params.n(1500, 60000);
+    for hist_idx in 0..n {
+        if !rep.in_budget() {
+            break;
+        }
+        let shards = *rng.pick(&[2usize, 4]);
+        let with_vrfs = rng.chance(1, 3);
+        let npre = rng.range(0, 8) as usize;
+        let pre: Vec<Op> = gen_ops(&mut rng, npre)
+            .into_iter()
+            .filter(|o| matches!(o, Op::Announce { .. } | Op::Withdraw { .. } | Op::NhReport { .. }))
+            .collect();
+        let plan = gen_conc_plan(&mut rng);
+        let hseed = rng.next_u64();
+        let intensity = *rng.pick(&[0u32, 30, 60, 90]);
+        let out = run_conc_history(shards, with_vrfs, &pre, &plan, hseed, intensity);
+        rep.eval();
+        rep.count("conc:histories");
+        rep.count_n("conc:ops-applied", out.applied);
+        rep.count_n("conc:nexthop-reports", out.reports);
+        rep.count_n("conc:sched-points-hit", out.hits);
+        rep.count_n("conc:thread-alternations-at-points", out.sched);
+        rep.count_n("requests-folded", out.requests);
+        if out.overlap {
+            rep.count("conc:histories-with-overlapping-threads");
+        }
+        if out.sched > 2 {
+            rep.nontrivial(fnv64(format!("{}{}{:?}{:?}{}", shards, with_vrfs, pre, plan, hseed).as_bytes()));
+        }
+        if let Some((clause, detail)) = out.failure {
+            // how often does the same plan fail?  (the interleaving is not replayable
+            // deterministically; the rate tells how narrow the window is)
+            let mut again = 0;
+            for k in 0..10 {
+                let o = run_conc_history(shards, with_vrfs, &pre, &plan, hseed.wrapping_add(k), intensity.max(60));
+                if o.failure.as_ref().is_some_and(|f| f.0 == clause) {
+                    again += 1;
+                }
+            }
+            // does it also fail when the threads' operations are applied one thread after another?
+            let seq_plan: Vec<Vec<COp>> = vec![plan.iter().flatten().cloned().collect()];
+            let seq = run_conc_history(shards, with_vrfs, &pre, &seq_plan, hseed, 0);
+            let kind = if seq.failure.as_ref().is_some_and(|f| f.0 == clause) { "sequential-too" } else { "needs-overlap" };
+            let sig = format!("C20/conc/{}/{}", clause, kind);
+            rep.violation(
+                &sig,
+                &format!(
+                    "at a quiescent point after concurrent session / next-hop-report / soft-reset threads, the replayed FIB or next-hop tracking state disagrees with the RIB ({})",
+                    clause
+                ),
+                Json::obj(vec![
+                    ("shards", Json::Int(shards as i128)),
+                    ("vrfs", Json::Bool(with_vrfs)),
+                    ("pre_ops", Json::strs(pre.iter().map(|o| format!("{:?}", o)))),
+                    ("threads", Json::arr(plan.iter().map(|t| Json::strs(t.iter().map(|o| format!("{:?}", o)))))),
+                    ("detail", Json::s(detail)),
+                    ("delay_seed", Json::Int(hseed as i128)),
+                    ("intensity", Json::Int(intensity as i128)),
+                    ("reproduced_in_10_reruns", Json::Int(again as i128)),
+                    ("shard_seed", Json::Int(params.seed as i128)),
+                    ("history_index", Json::Int(hist_idx as i128)),
+                ]),
+            );
+        } else if rep.want_sample() && out.sched > 4 {
+            rep.sample(Json::obj(vec![
+                ("shards", Json::Int(shards as i128)),
+                ("threads", Json::arr(plan.iter().map(|t| Json::strs(t.iter().take(6).map(|o| format!("{:?}", o)))))),
+                ("sched_points_hit", Json::Int(out.hits as i128)),
+                ("thread_alternations", Json::Int(out.sched as i128)),
+                ("requests_folded", Json::Int(out.requests as i128)),
+            ]));
+        }
+    }
+    let _ = rep.finish();
+}
